@@ -912,12 +912,12 @@ def exec_discrete(case) -> Soft:
 
 
 SUBS = [
-    Sub("nucleotide", exec_lf, strategy=nuc_cases(), quick=1920, thorough=64_000, shards_quick=16),
-    Sub("dinucleotide", exec_lf, strategy=dinuc_cases(), quick=256, thorough=8_000, shards_quick=16),
-    Sub("codon", exec_lf, strategy=codon_cases(), quick=96, thorough=3_200, shards_quick=16, weight=30.0),
-    Sub("protein", exec_lf, strategy=protein_cases(), quick=96, thorough=3_200, shards_quick=8),
-    Sub("expm", exec_expm, strategy=expm_cases(), quick=4000, thorough=96_000, shards_quick=16),
-    Sub("discrete", exec_discrete, strategy=discrete_cases(), quick=320, thorough=8_000, shards_quick=8),
+    Sub("nucleotide", exec_lf, strategy=nuc_cases(), quick=1440, thorough=64_000, shards_quick=16),
+    Sub("dinucleotide", exec_lf, strategy=dinuc_cases(), quick=192, thorough=8_000, shards_quick=16),
+    Sub("codon", exec_lf, strategy=codon_cases(), quick=64, thorough=3_200, shards_quick=16, weight=30.0),
+    Sub("protein", exec_lf, strategy=protein_cases(), quick=64, thorough=3_200, shards_quick=8),
+    Sub("expm", exec_expm, strategy=expm_cases(), quick=3200, thorough=96_000, shards_quick=16),
+    Sub("discrete", exec_discrete, strategy=discrete_cases(), quick=240, thorough=8_000, shards_quick=8),
 ]
 
 KNOWN_PREDICATES = {}
